@@ -97,7 +97,8 @@ def add_features_calculator(mod: fx.GraphModule, extra_rules: List[Callable] = [
                 "Flattening the batch not supported"
             # if flatten includes the channels
             if start_dim == 1 or len(input_shape) - start_dim == 1:
-                flattened_size = math.prod(input_shape[2:end_dim if end_dim != -1 else None])
+                # end_dim is inclusive
+                flattened_size = math.prod(input_shape[2:end_dim + 1 if end_dim != -1 else None])
                 n.meta['features_calculator'] = FlattenFeaturesCalculator(ifc, int(flattened_size))
             else:
                 n.meta['features_calculator'] = ifc  # just propagate the features
